@@ -13,6 +13,9 @@ CHECKS = {
  "C10": dict(cat="other", engine="mirsym", tech="bounded symbolic execution of the MIR of the text report writer and reader over byte-list strings, z3 validity per token-class shape; native replay through the real writer/reader",
              text="For file names of <= 2 tokens over 12 byte classes (3 over 4) the real write_as_text is executed symbolically, its emitted path / base-dir line bytes are fed to the symbolic execution of read_paths and of the base-dir handling in read_header, and z3 decides that the value read equals the value written and that cuts of the last path line are rejected. The command line is C17's join/split. JSON (serde_json), regexes and chrono are outside the encoding.",
              note="Trusted: MIR front end, string summaries incl. the stfu8 model (validated natively in C17), the model of `^# Base dir: (.*)`; counterexamples are replayed natively.", ref="DESIGN.md §3 C10"),
+ "C11": dict(cat="other", engine="mirsym", tech="bounded symbolic execution of rustc MIR: to_shell_str templates vs. execute's wrapper-call sequence, z3/term comparison; CLI replay dry-run vs real run",
+             text="For Remove, SoftLink, HardLink and Move{rename,copy} the lines printed by to_shell_str (verb, quoted paths, order) are reconstructed from the format! templates and compared with the file-system wrapper calls of execute on its success path; space_to_reclaim is compared with execute's return value; dedupe() must yield one item per group. Partial: order restoration across threads, bash and RefLink are outside; quoting is C17.",
+             note="Trusted: MIR front end + summaries; temp_file treated as a function of the path.", ref="DESIGN.md §3 C11"),
  "C12": dict(cat="other", engine="mirsym", tech="bounded symbolic execution of rustc MIR with z3 validity queries (cache key/get/put/open, hasher cache protocol); CLI replay with --cache",
              text="Kernel-level: z3 decides on the symbolic execution of HashCache::{key,get,put,open} and FileHasher::{hash_file,hash_transformed} (sled as an uninterpreted map, stat/clock accessors as pure functions) that a hit requires equal millisecond mtime and length and returns the stored pair, that entries are stored under (file id, chunk) in a tree named after hash function and transform, and that the hashers store exactly what they computed. The end-to-end statement follows under the property's proviso.",
              note="Trusted: MIR front end + summaries, z3, sled as a map. Durability / interrupted runs and inode reuse within one millisecond are outside.", ref="DESIGN.md §3 C12"),
